@@ -1,5 +1,5 @@
 SPECIFICATION Spec
 CONSTANTS Cells = {1, 2} Algs = {0, 1, 2, 3, 4} Keys = {2, 3} Counts = {2, 3} Bearers = {0, 9, 31, 32} Dirs = {0, 1, 2}
-          Sym = {0, 1} MaxLen = 3 Pats <- Pats3 MacVals <- TwoMacs Nil = Nil MaxPoints = 3 WithNil = TRUE
+          Sym = {0, 1} MaxLen = 3 Pats <- Pats3 MacVals <- TwoMacs MaxRes = 0 MacTop = 1 Nil = Nil MaxPoints = 3 WithNil = TRUE
 INVARIANTS Accounting LengthPreserved Involution PrefixStable KsIndependent
 CHECK_DEADLOCK FALSE
